@@ -191,6 +191,19 @@ impl<R: IntoRole + RequiredParameters + Default> Parameters<R> {
                 return Err(Error::LackParameterId(R::into_role(), id).into());
             }
         }
+        // A server that chooses a zero-length connection ID MUST NOT provide a preferred
+        // address (RFC 9000 §18.2); the client treats a violation as a parameter error.
+        if parameters.contains(ParameterId::PreferredAddress)
+            && parameters
+                .get::<ConnectionId>(ParameterId::InitialSourceConnectionId)
+                .is_some_and(|cid| cid.is_empty())
+        {
+            return Err(Error::IncompleteValue(
+                ParameterId::PreferredAddress,
+                "preferred address provided with a zero-length connection id".to_string(),
+            )
+            .into());
+        }
         Ok(parameters)
     }
 }
